@@ -424,3 +424,234 @@ func c12Extras4(c *Ctx) {
 		c.Cut(CutSpec{Rule: "R-SIBLING", Fn: fn, Label: "true only if " + k[2] + " (strictly, as in FilterByDate)", Target: TrueReturn(0, cut), MinTargets: -1, Cut: cut})
 	}
 }
+
+// c15Extras4: a OneCRL subject/key record keeps the subject octets of the document (Check compares them with the
+// certificate's RawSubject octet for octet): the stored RawSubject comes from the base64 decoding, never from a
+// re-marshalling of the decoded name.
+func c15Extras4(c *Ctx) {
+	w := c.W
+	n := 0
+	for f, ws := range w.FieldWrites() {
+		if !strings.HasSuffix(f, ".RawSubject") {
+			continue
+		}
+		for _, wr := range ws {
+			if wr.Kind != "store" || wr.Fn.Pkg == nil || wr.Fn.Pkg.Pkg.Path() != expand("z/x509/revocation/mozilla") || !strings.HasSuffix(FuncName(wr.Fn), "Entry).UnmarshalJSON") {
+				continue
+			}
+			n++
+			c.Sites++
+			d := Deps(wr.Val)
+			bad := ""
+			for k := range d {
+				if strings.HasPrefix(k, "call:") && strings.HasSuffix(k, "asn1.Marshal") {
+					bad = k
+				}
+			}
+			c.Check(bad == "", "R-PROV", "mozilla.Entry.UnmarshalJSON", fmt.Sprintf("the blocked subject (#%d) keeps the octets of the document, it is not re-marshalled", n), w.InstrPos(wr.In), bad)
+		}
+	}
+	c.Check(n >= 1, "R-PROV", "mozilla.Entry.UnmarshalJSON", "store of the blocked RawSubject found", "-", fmt.Sprint(n))
+}
+
+// shortReadRule (R-SHORTREAD): a direct Read on an io.Reader whose byte count is discarded fills only part of the
+// buffer on a short read; parsers read through io.ReadFull / binary.Read. Expected count zero.
+func shortReads(fn *ssa.Function) []deadReport {
+	var out []deadReport
+	for _, b := range fn.Blocks {
+		for _, in := range b.Instrs {
+			cl, ok := in.(*ssa.Call)
+			if !ok || !cl.Call.IsInvoke() || cl.Call.Method.Name() != "Read" || cl.Call.Method.Pkg() == nil || cl.Call.Method.Pkg().Path() != "io" {
+				continue
+			}
+			usedN := false
+			for _, r := range *cl.Referrers() {
+				if ex, ok := r.(*ssa.Extract); ok && ex.Index == 0 && len(*ex.Referrers()) > 0 {
+					usedN = true
+				}
+			}
+			if !usedN {
+				out = append(out, deadReport{in, "io.Reader.Read with the byte count discarded (a short read leaves the rest of the buffer unfilled)"})
+			}
+		}
+	}
+	return out
+}
+
+func (c *Ctx) ShortReadObligations(pkgs ...string) {
+	w := c.W
+	n := 0
+	for _, pk := range pkgs {
+		for _, fn := range w.FuncsOfPkg(pk) {
+			n++
+			for i, r := range shortReads(fn) {
+				c.Fail("R-SHORTREAD", short(FuncName(fn)), fmt.Sprintf("no short-read-prone Read (#%d)", i+1), w.InstrPos(r.In), r.What)
+			}
+		}
+	}
+	c.Sites++
+	c.OK("R-SHORTREAD", strings.Join(pkgs, ","), "searched for io.Reader.Read calls whose byte count is discarded", "-", fmt.Sprintf("%d functions", n))
+}
+
+// c17Extras4: Scan resets every counter its workers advance before it starts them (a Scanner may be used again).
+func c17Extras4(c *Ctx) {
+	w := c.W
+	fn := w.Fn("(*z/ct/scanner.Scanner).Scan")
+	if fn == nil {
+		return
+	}
+	for _, f := range []string{"certsProcessed", "precertsSeen", "unparsableEntries", "entriesWithNonFatalErrors"} {
+		c.Sites++
+		ok := false
+		for _, wr := range w.FieldWrites()["Scanner."+f] {
+			if wr.Fn == fn && wr.Kind == "store" {
+				if k, isK := wr.Val.(*ssa.Const); isK && k.Value != nil && k.Value.ExactString() == "0" {
+					ok = true
+				}
+			}
+		}
+		c.Check(ok, "R-STATE", "ct/scanner.Scanner.Scan", "counter "+f+" is reset at the start of a scan", w.Pos(fn.Pos()), "")
+	}
+}
+
+// c18Extras4: in parseSequenceOf's tag pre-pass both time tags end up as the tag getUniversalType reports for
+// time.Time (UTCTime) and the six alternative string tags as PrintableString.
+func c18Extras4(c *Ctx) {
+	w := c.W
+	fn := w.Fn("z/encoding/asn1.parseSequenceOf")
+	if fn == nil {
+		c.Undecided("R-TABLE", "encoding/asn1.parseSequenceOf", "anchor", "-", "not found")
+		return
+	}
+	fold := map[int64]int64{}
+	var follow func(b *ssa.BasicBlock, depth int) (int64, bool)
+	follow = func(b *ssa.BasicBlock, depth int) (int64, bool) {
+		if depth > 3 {
+			return 0, false
+		}
+		for _, in := range b.Instrs {
+			if st, ok := in.(*ssa.Store); ok {
+				if fa, ok := st.Addr.(*ssa.FieldAddr); ok && fieldLeaf(fieldName(fa)) == "tag" {
+					if k, ok := intConst(st.Val); ok {
+						return k, true
+					}
+					return 0, false
+				}
+			}
+		}
+		if len(b.Succs) == 1 && len(b.Instrs) <= 2 {
+			return follow(b.Succs[0], depth+1)
+		}
+		return 0, false
+	}
+	for _, b := range fn.Blocks {
+		iff, ok := b.Instrs[len(b.Instrs)-1].(*ssa.If)
+		if !ok {
+			continue
+		}
+		for _, f := range condFacts(iff.Cond, true, idRes) {
+			if f.Op != "eq" || f.Y == nil || !strings.HasSuffix(Expr(f.X), ".tag") {
+				continue
+			}
+			if k, ok := intConst(f.Y); ok {
+				if to, ok := follow(b.Succs[0], 0); ok {
+					fold[k] = to
+				}
+			}
+		}
+	}
+	c.Sites++
+	var bad []string
+	for _, k := range []int64{22, 27, 20, 12, 18, 30} {
+		if fold[k] != 19 {
+			bad = append(bad, fmt.Sprintf("string tag %d -> %d", k, fold[k]))
+		}
+	}
+	if fold[24] != 23 {
+		bad = append(bad, fmt.Sprintf("GeneralizedTime (24) -> %d, want UTCTime (23), the tag expected for time.Time", fold[24]))
+	}
+	c.Check(len(bad) == 0, "R-TABLE", "encoding/asn1.parseSequenceOf", "alternative string tags fold to PrintableString and GeneralizedTime folds to UTCTime before elements are compared with the expected tag", w.Pos(fn.Pos()), strings.Join(bad, "; "))
+	// the slice handed back is made in the call (a decoder never reuses its destination's storage)
+	made, other := false, ""
+	for v := range returnClosure(fn, 0) {
+		if cl, ok := v.(*ssa.Call); ok {
+			switch calleeName(&cl.Call) {
+			case "reflect.MakeSlice":
+				made = true
+			case "reflect.Zero":
+			default:
+				if strings.HasPrefix(calleeName(&cl.Call), "(reflect.Value).") {
+					other = calleeName(&cl.Call)
+				}
+			}
+		}
+	}
+	c.Sites++
+	c.Check(made && other == "", "R-FRESH", "encoding/asn1.parseSequenceOf", "the decoded slice is freshly made (reflect.MakeSlice) on every path", w.Pos(fn.Pos()), other)
+}
+
+// c19Extras4: a four-byte integer destination is decoded with the range-checking parseInt32.
+func c19Extras4(c *Ctx) {
+	w := c.W
+	fn := w.Fn("z/encoding/asn1.parseField")
+	if fn == nil {
+		return
+	}
+	n := 0
+	for _, in := range callsIn(fn, "(reflect.Value).SetInt") {
+		cc := callCommon(in)
+		if cc == nil || len(cc.Args) != 2 {
+			continue
+		}
+		from64 := false
+		for v := range backClosure(cc.Args[1], nil) {
+			if ex, ok := v.(*ssa.Extract); ok {
+				if cl, ok := ex.Tuple.(*ssa.Call); ok && strings.HasSuffix(calleeName(&cl.Call), "asn1.parseInt64") {
+					from64 = true
+				}
+			}
+		}
+		if !from64 {
+			continue
+		}
+		n++
+		c.Sites++
+		c.Cut(CutSpec{Rule: "R-VSET", Fn: fn, Label: fmt.Sprintf("a value parsed at 64 bits is stored (#%d) only into a destination that is not four bytes wide (those go through parseInt32's range check)", n), MinTargets: -1,
+			Target: func(i2 ssa.Instruction, _ resolver) bool { return i2 == in },
+			Cut: func(f Fact) bool {
+				if f.Y == nil || f.Op != "ne" {
+					return false
+				}
+				k, ok := intConst(f.Y)
+				return ok && k == 4 && strings.Contains(Expr(f.X), "Size(")
+			}})
+	}
+	c.Check(n >= 1, "R-VSET", "encoding/asn1.parseField", "SetInt of a parseInt64 result found", w.Pos(fn.Pos()), fmt.Sprint(n))
+}
+
+// c21Extras4: String.read refuses only a request that is negative or longer than what is left (reading zero octets
+// succeeds: an empty length-prefixed block is a value).
+func c21Extras4(c *Ctx) {
+	w := c.W
+	fn := w.Fn("(*z/cryptobyte.String).read")
+	if fn == nil {
+		c.Undecided("R-VSET", "cryptobyte.String.read", "anchor", "-", "not found")
+		return
+	}
+	c.Sites++
+	c.Cut(CutSpec{Rule: "R-VSET", Fn: fn, Label: "returns nil only if n is negative or exceeds the remaining length", MinTargets: -1,
+		Target: func(in ssa.Instruction, res resolver) bool {
+			rt, ok := in.(*ssa.Return)
+			return ok && len(rt.Results) == 1 && isNilConst(res(rt.Results[0]))
+		},
+		Cut: func(f Fact) bool {
+			if f.Y == nil || f.Op != "lt" {
+				return false
+			}
+			if Param("n")(f.X) {
+				k, ok := intConst(f.Y)
+				return ok && k == 0
+			}
+			return strings.HasPrefix(Expr(f.X), "len(") && Param("n")(f.Y)
+		}})
+}
